@@ -1,9 +1,9 @@
 package regnet
 
 import (
-	"strings"
 	"github.com/elastos/Elastos.ELA/core/types"
 	"os"
+	"strings"
 	"testing"
 
 	elalog "github.com/elastos/Elastos.ELA/common/log"
